@@ -296,3 +296,86 @@ func VerifC03StaleSegmentTwin() {
 	vAssert(l.NewestOffset() == 1, "NewestOffset matches the appends")
 	vCover("done")
 }
+
+// VerifC03Readonly: read-only toggles. n messages, HW and reader start
+// symbolic; a committed reader runs concurrently (exploring scheduler) with the
+// partition being made read-only and the HW catching up with the log end. The
+// reader delivers every message in [start', LEO] once, in order, none above the
+// HW at the time, and then ENDS with the read-only error (it neither blocks
+// forever nor ends early); after the toggle is switched off again an append is
+// accepted and a new committed reader sees it once committed.
+func VerifC03Readonly() {
+	dir := vTempDir()
+	n := vParam("msgs", 3)
+	l, err := New(vOpts(dir, 1<<20))
+	vAssert(err == nil, "New succeeds")
+	for i := 0; i < n; i++ {
+		_, err := l.Append([]*Message{{Value: []byte{byte(i)}, Timestamp: int64(i + 1), MagicByte: 2}})
+		vAssert(err == nil, "Append succeeds")
+	}
+	h := vNondetInt64("hw")
+	vAssume(h >= -1)
+	vAssume(h <= int64(n-1))
+	h = vConcretize64(h)
+	l.SetHighWatermark(h)
+	start := vNondetInt64("start")
+	vAssume(start >= 0)
+	vAssume(start <= int64(n))
+	start = vConcretize64(start)
+	r, err := l.NewReader(start, false)
+	vAssert(err == nil, "NewReader(committed) succeeds at any offset")
+	if err != nil {
+		return
+	}
+	first := start
+	if start > h {
+		first = h + 1 // a reader beyond the HW gets the next committed message
+	}
+	done := make(chan struct{}, 3)
+	var got []int64
+	var endErr error
+	vSchedExplore(vParam("preemptions", 1))
+	go func() { // committed reader
+		buf := make([]byte, 28)
+		for {
+			_, off, _, _, err := r.ReadMessage(vCtx(), buf)
+			if err != nil {
+				endErr = err
+				break
+			}
+			vAssert(off <= l.HighWatermark(), "no message above the high watermark is delivered")
+			got = append(got, off)
+		}
+		done <- struct{}{}
+	}()
+	go func() { // the partition becomes read-only
+		l.SetReadonly(true)
+		done <- struct{}{}
+	}()
+	go func() { // replication catches up: everything in the log is committed
+		l.SetHighWatermark(int64(n - 1))
+		done <- struct{}{}
+	}()
+	<-done
+	<-done
+	<-done
+	vSchedExplore(0)
+	vAssert(endErr == ErrCommitLogReadonly, "at the end of a read-only log the subscription ends with the read-only status (it neither hangs nor ends early)")
+	want := int64(n) - first
+	if want < 0 {
+		want = 0
+	}
+	vAssert(int64(len(got)) == want, "every committed message from the reader's position to the log end is delivered before the end")
+	for i, off := range got {
+		vAssert(off == first+int64(i), "in offset order, each once")
+	}
+	_, err = l.Append([]*Message{{Value: []byte{99}, Timestamp: 100, MagicByte: 2}})
+	vAssert(err == ErrCommitLogReadonly, "a read-only log refuses appends")
+	l.SetReadonly(false)
+	offs, err := l.Append([]*Message{{Value: []byte{99}, Timestamp: 100, MagicByte: 2}})
+	vAssert(err == nil, "after the toggle is switched off appends are accepted again")
+	if err == nil {
+		vAssert(offs[0] == int64(n), "and continue at the next offset")
+	}
+	vCover("done")
+}
